@@ -11,7 +11,7 @@ C11 — Automatic mask minimises the documented penalty over all eight masks.
 * ranking score = documented penalty of the very candidate (rows AND columns of the masked
   matrix): `Proofs/ScoreSound.lean` (`line` = runs + windows, `squares` = blocks).
 -/
-import FastQr.Finite.Tables
+import FastQr.Finite.TablesMisc
 import FastQr.Proofs.Lift
 import FastQr.Model.Build
 
